@@ -120,6 +120,7 @@ class Hub:
         self.tx_policy = None  # fn(port, frame_bytes, nth) -> True if the whole transmission is lost
         self.echo_policy = None  # fn(port, frame_bytes, nth) -> list[float] latencies
         self.on_frame = None  # fn(port, frame_bytes, nth): engine hook after firmware
+        self.unheard_policy = None  # fn(port, frame_bytes, nth) -> True: on the air (echoed) but no peer hears it
         self.cast_between_ports = True
         self.split_mode = "plan"  # "plan" | "all"
         self.quiet = False  # True after t_quiet: no more faults
@@ -250,6 +251,9 @@ class Hub:
                     self.inject(other, b"045 " + frame + b"\r\n", 0.012)
         if self.on_frame is not None:
             self.on_frame(ser, frame, nth)
+        if self.unheard_policy is not None and self.unheard_policy(ser, frame, nth):
+            self.count("tx_unheard")  # the dongle echoed it, the addressee did not receive it
+            return
         for peer in self.peers:
             peer.on_frame(ser, frame, nth)
 
